@@ -738,7 +738,7 @@ def session(seed):
 def skinned_clean(seed, nops=10):
     """C16: SkinnedMesh written by the entity's owner only, joints = live synchronized entities
     (any order, repeats, 0..3), local entity ids shifted differently per peer, live delivery in all
-    three directions (no joiner: the snapshot path is the known finding S13)."""
+    three directions (the snapshot path: skinned_join)."""
     r = random.Random(seed)
     n = r.choice([2, 3, 3])
     lines = _header(r, n, [0, 8])
@@ -792,34 +792,44 @@ def skinned_clean(seed, nops=10):
 
 
 def skinned_join(seed, nops=6):
-    """C16 through the joining snapshot: the host owns bare joints (spawned first) and skinned
-    entities whose joints are bare entities only — the one shape in which the real snapshot order
-    (per archetype) and the model's (per entity id) agree up to independent messages; a client joins
-    late; the host may re-skin during the join."""
+    """C16 through the joining snapshot: the host owns entities of several archetypes (bare, with a
+    small or a 100 kB component, gaining components after they were named as joints, so that a
+    joint's archetype may be created after the skinned entity's and the snapshot may span several
+    frames); any entity may be a joint of any other, itself skinned or not; a client joins late; the
+    host may re-skin during the join."""
     r = random.Random(seed)
     n = r.choice([2, 3])
-    lines = _header(r, n, [0, 8])
+    lines = _header(r, n, [0, 2, 7, 8])
     late = n - 1
     for p in range(n):
         if p != late:
             lines.append('OP %d setup' % p)
     lines.append('ROUND %d' % r.randint(6, 9))
     h = 0
-    joints, skinned = [], []
-    for _ in range(r.randint(2, 4)):
-        h += 1
-        lines.append('OP 0 spawn %d 1' % h)
-        joints.append(h)
-    for _ in range(r.randint(1, 3)):
-        h += 1
-        lines.append('OP 0 spawn %d 1' % h)
-        skinned.append(h)
-    lines.append('DRAIN 60')
     val = 10
+    ents = []
+    big = r.random() < 0.5
+
+    def comps():
+        nonlocal val
+        out = []
+        for t in (0, 2, 7):
+            if r.random() < 0.35:
+                val += 1
+                out.append('%d:%d' % (t, 100000 + val if (t == 7 and big and r.random() < 0.5) else val))
+        return out
+    for _ in range(r.randint(3, 7)):
+        h += 1
+        lines.append(('OP 0 spawn %d 1 ' % h + ' '.join(comps())).rstrip())
+        ents.append(h)
+        if r.random() < 0.3:
+            lines.append('FRAME 0 %d' % r.randint(1, 2))
+    lines.append('DRAIN 60')
+    skinned = r.sample(ents, r.randint(1, min(3, len(ents))))
 
     def skin(e):
         nonlocal val
-        js = [r.choice(joints) for _ in range(r.randint(0, 3))]
+        js = [r.choice(ents) for _ in range(r.randint(0, 3))]
         ps = []
         for _ in range(r.randint(0, 2)):
             val += 1
@@ -827,8 +837,17 @@ def skinned_join(seed, nops=6):
         lines.append('OP 0 skin %d %s %s' % (e, ','.join(map(str, js)) or '-', ','.join(map(str, ps)) or '-'))
     for e in skinned:
         skin(e)
+        if r.random() < 0.4:
+            lines.append('FRAME 0 %d' % r.randint(1, 2))
     for _ in range(r.randint(0, nops)):
-        skin(r.choice(skinned))
+        c = r.random()
+        if c < 0.5:
+            skin(r.choice(skinned))
+        else:
+            # a joint (or any entity) gains or changes a component: it moves to an archetype that may be new
+            val += 1
+            t = r.choice([0, 2, 7])
+            lines.append('OP 0 write %d %d %d' % (r.choice(ents), t, 100000 + val if (t == 7 and big and r.random() < 0.4) else val))
         if r.random() < 0.5:
             lines.append('ROUND %d' % r.randint(1, 2))
     lines.append('DRAIN 60')
